@@ -3,6 +3,9 @@ Independent description of "the document with every Absent site removed" (C18, f
 Absent-valued assignments (top level, block children, section children at any depth), Absent META
 entries, Absent entries of a nested META dict, Absent list items and Absent inline-map values (at any
 depth inside values) are deleted; nothing else changes.
+
+A raw Python `dict` is part of the AST only as a direct value of META (the parser's one nested level).
+Anywhere else it is a foreign object that `emit_value` prints with `str()`; it is left alone here.
 -/
 import Octave.Model.Doc
 namespace Octave
@@ -11,7 +14,6 @@ mutual
 def pruneVal : Val → Val
   | .list items => .list (pruneItems items)
   | .map pairs => .map (prunePairs pairs)
-  | .dict pairs => .dict (prunePairs pairs)
   | v => v
 def pruneItems : List Val → List Val
   | [] => []
@@ -35,6 +37,13 @@ def pruneNodes : List Node → List Node
   | n :: rest => pruneNode n :: pruneNodes rest
 end
 
-def pruneDoc (d : Doc) : Doc := { d with «meta» := prunePairs d.«meta», nodes := pruneNodes d.nodes }
+/-- META: Absent entries go; a nested dict loses its Absent entries; other values are pruned inside. -/
+def pruneMeta : List (Str × Val) → List (Str × Val)
+  | [] => []
+  | (_, .absent) :: rest => pruneMeta rest
+  | (k, .dict pairs) :: rest => (k, .dict (prunePairs pairs)) :: pruneMeta rest
+  | (k, v) :: rest => (k, pruneVal v) :: pruneMeta rest
+
+def pruneDoc (d : Doc) : Doc := { d with «meta» := pruneMeta d.«meta», nodes := pruneNodes d.nodes }
 
 end Octave
